@@ -27,6 +27,7 @@ pub open spec fn vac_ins_post<P: Prefix, T>(m0: PrefixMap<P, T>, mf: PrefixMap<P
         mf.wf_shape() && mf.wf_free() && mf.wf_count()
         && mf.content() =~= m0.content().insert(p.bits(), (p, rf.value.unwrap()))
         && grow_ok(m0, mf)
+        && (m0.canon() ==> mf.canon())
 }
 
 /// overwriting the value of a stored node keeps everything else
@@ -36,10 +37,12 @@ pub proof fn lemma_value_overwrite<P: Prefix, T>(mm: PrefixMap<P, T>, n: int)
         forall|mf: PrefixMap<P, T>, nf: Node<P, T>| #[trigger] map_upd_node(mm, mf, n, nf) && node_value_only(mm.tab()[n], nf) ==>
             mf.wf_shape() && mf.wf_free() && mf.wf_count()
             && mf.content() =~= mm.content().insert(kb(mm.tab(), n), (nf.prefix, nf.value.unwrap()))
+            && (mm.canon() ==> mf.canon())
 {
     assert forall|mf: PrefixMap<P, T>, nf: Node<P, T>| #[trigger] map_upd_node(mm, mf, n, nf) && node_value_only(mm.tab()[n], nf) implies
             mf.wf_shape() && mf.wf_free() && mf.wf_count()
-            && mf.content() =~= mm.content().insert(kb(mm.tab(), n), (nf.prefix, nf.value.unwrap())) by {
+            && mf.content() =~= mm.content().insert(kb(mm.tab(), n), (nf.prefix, nf.value.unwrap()))
+            && (mm.canon() ==> mf.canon()) by {
         lemma_glob(mm.tab(), mm.live());
         assert(frame_nodes(mm.tab(), mf.tab(), n, n, n));
         lemma_insert_reached(mm, mf, n, nf.prefix, nf.value.unwrap());
@@ -54,6 +57,7 @@ pub proof fn lemma_vac_ins<P: Prefix, T>(m0: PrefixMap<P, T>, mm: PrefixMap<P, T
         mm.wf_shape(), mm.wf_free(), mm.wf_count(), // [SHAPE,FREE,COUNT]
         ins_content(m0, mm, p, v), // [C01,C18]
         grow_ok(m0, mm), // [C16]
+        m0.canon() ==> mm.canon(), // [C15]
         mm.live().contains(n), mm.tab()[n].prefix == p, mm.tab()[n].value == Some(v), // [C01,C18,SHAPE]
     ensures
         forall|mf: PrefixMap<P, T>, nf: Node<P, T>| map_upd_node(mm, mf, n, nf) ==> #[trigger] vac_ins_post(m0, mf, p, mm.tab()[n], nf)
@@ -129,6 +133,7 @@ pub proof fn lemma_occ_update<P: Prefix, T>(m0: PrefixMap<P, T>, mf: PrefixMap<P
         nf.value.is_some() ==> mf.content() =~= m0.content().insert(q, (nf.prefix, nf.value.unwrap())),
         nf.value.is_none() ==> mf.content() =~= m0.content().remove(q),
         shape_same(m0.tab(), mf.tab()),
+        nf.value.is_some() && m0.canon() ==> mf.canon(), // [C15]
 {
     let i = node_of(m0.tab(), m0.live(), q);
     lemma_content_dom(m0.tab(), m0.live(), q);
@@ -148,6 +153,7 @@ pub open spec fn vac_done<P: Prefix, T>(m0: PrefixMap<P, T>, mf: PrefixMap<P, T>
     mf.wf_shape() && mf.wf_free() && mf.wf_count()
         && mf.content() =~= m0.content().insert(p.bits(), (p, w))
         && grow_ok(m0, mf)
+        && (m0.canon() ==> mf.canon())
 }
 
 /// [C13] what a mutable exact/longest-match lookup promises about the map once the returned value
@@ -159,6 +165,7 @@ pub open spec fn wt_post<P: Prefix, T>(m0: PrefixMap<P, T>, mf: PrefixMap<P, T>,
         && mf.wf_shape() && mf.wf_free() && (m0.wf_count() ==> mf.wf_count())
         && mf.content() =~= m0.content().insert(k, (m0.content()[k].0, w))
         && shape_same(m0.tab(), mf.tab())
+        && (m0.canon() ==> mf.canon())
 }
 
 pub proof fn lemma_wt<P: Prefix, T>(m0: PrefixMap<P, T>, n: int)
@@ -189,6 +196,11 @@ pub proof fn lemma_wt<P: Prefix, T>(m0: PrefixMap<P, T>, n: int)
         if m0.wf_count() {
             assert forall|i: int| 0 <= i implies ind(t0, l0, i) == ind(t1, l0, i) by { }
             lemma_nval_ext(t0, l0, t0.len() as int, t1, l0, t1.len() as int, -1);
+        }
+        if m0.canon() {
+            assert forall|j: int| #![trigger l0.contains(j)] l0.contains(j) && j != 0 && t1[j].value.is_none() implies t1[j].left.is_some() && t1[j].right.is_some() by {
+                if j != n { assert(t1[j] == t0[j]); }
+            }
         }
     }
 }
